@@ -62,4 +62,23 @@ theorem stale_population_exceeds_one :
     let c := run ⟨[[false], [false]], [none, none]⟩ [.query 1, .fin 1 0, .grow 1 2, .fin 1 1, .fin 1 2]
     queryStageStale c 1 = (3, 1) ∧ queryStage c 1 = (3, 3) := by decide
 
+/-- An in-transit list that skips nodes by their STATE being FINISHED (instead of by `comp_done`
+membership) puts a stage that completed with a SHUTDOWN component into BOTH lists: its weight is
+counted 1 + 1/2 times (0.3 instead of 0.2 while stage 1 runs) and the total exceeds one (1.1) once every
+stage has completed — `compTotal` (lists from `comp_done`) reports 0.2 and 1.0 on the same states. -/
+theorem by_state_in_transit_double_counts :
+    let ws := [200000000, 300000000, 500000000]
+    let s1 : List (List Comp) := [[⟨some .finished, true⟩, ⟨some .shutdown, true⟩], [Comp.fresh], [Comp.fresh]]
+    let s2 : List (List Comp) := [[⟨some .finished, true⟩, ⟨some .shutdown, true⟩], [⟨some .finished, true⟩], [⟨some .finished, true⟩]]
+    (0 ∈ inTransitByStateOf s1 ∧ 0 ∈ finishedOf s1) ∧
+    compTotalByState 1 s1 ws = 2 * 300000000 ∧ compTotal 1 s1 ws = 2 * 200000000 ∧
+    compTotalByState 2 s2 ws = 2 * 1100000000 ∧ compTotal 2 s2 ws = 2 * one := by decide
+
+/-- The code that exists reports the FINISHED fraction for the CURRENT stage even when all of its
+components terminated: a last stage that was stopped (one component FINISHED, one SHUTDOWN) keeps the
+total at 0.75 although every stage has terminated (hypothesis `hcur` of `comp_total_complete`). -/
+theorem current_stage_with_stopped_component_stays_below_one :
+    compTotal 1 [[⟨some .finished, true⟩], [⟨some .finished, true⟩, ⟨some .shutdown, true⟩]]
+      [500000000, 500000000] = 2 * 750000000 := by decide
+
 end St4sd.C20.Witness
